@@ -27,6 +27,10 @@ TagForms == {
   [raw |-> "1 ", has |-> TRUE, pt |-> PT("bad", 0, "")],
   [raw |-> "1.5", has |-> TRUE, pt |-> PT("bad", 0, "")],
   [raw |-> "99999999999999999999", has |-> TRUE, pt |-> PT("bad", 0, "")],
+  \* well-formed numbers beyond the largest field number of the wire format (2^29 - 1): no decode table can be built for them
+  [raw |-> "9223372036854775807", has |-> TRUE, pt |-> PT("bad", 0, "")],
+  [raw |-> "17592186044416", has |-> TRUE, pt |-> PT("bad", 0, "")],
+  [raw |-> "536870912", has |-> TRUE, pt |-> PT("bad", 0, "")],
   [raw |-> "+2", has |-> TRUE, pt |-> PT("index", 2, "")],
   [raw |-> "300", has |-> TRUE, pt |-> PT("index", 300, "")] }
 DupIndexes == {0, 1, 5, 31, 32, 63, 64, 65, 127, 128, 300}
